@@ -107,7 +107,7 @@ package cashu
 //@   safety C14 C06
 //@   ensures @sum [C14] result == sum.v3(seq(t.Token), heap("HS.cashu.Proof"), len(t.Token)) % 18446744073709551616
 //@   loop 1 invariant 0 <= idx && idx <= len(t.Token) && totalAmount == sum.v3(seq(t.Token), heap("HS.cashu.Proof"), idx) % 18446744073709551616
-//@   loop 2 invariant 0 <= idx && idx <= len(tokenProof.Proofs) && totalAmount == (sum.v3(seq(t.Token), heap("HS.cashu.Proof"), local(idx1, int)) + sum.proof.amount(seq(tokenProof.Proofs), idx)) % 18446744073709551616
+//@   loop 2 invariant 0 <= idx && idx <= len(tokenProof.Proofs) && totalAmount == (sum.v3(seq(t.Token), heap("HS.cashu.Proof"), idx1) + sum.proof.amount(seq(tokenProof.Proofs), idx)) % 18446744073709551616
 
 //@ func (TokenV4).Proofs
 //@   tags C14
@@ -124,7 +124,7 @@ package cashu
 //@ func NewTokenV3
 //@   tags C14 C08
 //@   safety C14 C06
-//@   loop 1 invariant 0 <= i
+//@   loop 1 invariant 0 <= i && (forall k :: 0 <= k && k < i ==> proofs[k].DLEQ == nil)
 //@   ensures @nodleq [C14,C08] err == nil && !includeDLEQ ==> (forall k :: 0 <= k && k < len(proofs) ==> proofs[k].DLEQ == nil)
 
 //@ func NewTokenV4
